@@ -59,6 +59,10 @@ pub struct BRule {
     /// does not look at it, so nothing may change)
     #[serde(default)]
     pub no_loop: bool,
+    /// `retract(F.fK)` after the assignments: the rule REMOVES a fact (Facts::remove under the search's undo
+    /// frames). Generated for C10 and C11 only, whose oracles need no reference semantics of removal
+    #[serde(default)]
+    pub retracts: Vec<u8>,
 }
 
 #[derive(Clone, Debug, Serialize, Deserialize, PartialEq)]
@@ -268,6 +272,9 @@ fn build_kb(types: &[Ty], rules: &[BRule]) -> KnowledgeBase {
             .collect();
         for (t, src) in &r.copies {
             actions.push(ActionType::Set { field: fkey(*t), value: Value::Expression(fkey(*src)) });
+        }
+        for f in &r.retracts {
+            actions.push(ActionType::Retract { object: fkey(*f) });
         }
         if r.fails {
             actions.push(ActionType::MethodCall { object: "Ghost".to_string(), method: "poke".to_string(), args: vec![] });
@@ -763,6 +770,9 @@ fn run_search(
     if rules.iter().any(|r| !r.copies.is_empty()) {
         obs.count("probe.rule_action_that_reads_a_fact");
     }
+    if rules.iter().any(|r| !r.retracts.is_empty()) {
+        obs.count("probe.rule_action_that_retracts_a_fact");
+    }
     let mut asked: BTreeSet<String> = BTreeSet::new();
     for (step, op) in ops.iter().enumerate() {
         let site = site_of(strategy);
@@ -1199,7 +1209,7 @@ fn gen_search(rng: &mut Rng, hash_seed: u64, c11_ops: bool, with_negation: bool)
             cond = if rng.chance(if horn { 9 } else { 2 }, if horn { 10 } else { 3 }) { BCond::And(Box::new(cond), Box::new(a)) } else { BCond::Or(Box::new(cond), Box::new(a)) };
         }
         let nsets = 1 + rng.usize(2);
-        let sets = (0..nsets)
+        let sets: Vec<(u8, u8)> = (0..nsets)
             .map(|_| {
                 let f = if chain { target } else { rng.below(nassign as u64) as u8 };
                 (f, if horn { assigned_val[f as usize] } else { rng.below(3) as u8 })
@@ -1214,7 +1224,14 @@ fn gen_search(rng: &mut Rng, hash_seed: u64, c11_ops: bool, with_negation: bool)
         } else {
             vec![]
         };
-        rules.push(BRule { cond, sets, fails, copies, no_loop: rng.chance(1, 4) });
+        // C10 and C11 only: one rule in eight also retracts a fact (not the one it has just assigned)
+        let retracts = if with_negation && rng.chance(1, 8) {
+            let f = rng.below(NF as u64) as u8;
+            if sets.iter().any(|(t, _): &(u8, u8)| *t % NF as u8 == f) { vec![] } else { vec![f] }
+        } else {
+            vec![]
+        };
+        rules.push(BRule { cond, sets, fails, copies, no_loop: rng.chance(1, 4), retracts });
     }
     // state-machine programs (a quarter of the non-Horn ones): field 0 is a state that rules move from
     // value to value (`F.f0 == a -> F.f0 = b`), field 1 an output concluded from a state
@@ -1228,11 +1245,11 @@ fn gen_search(rng: &mut Rng, hash_seed: u64, c11_ops: bool, with_negation: bool)
         for _ in 0..2 + rng.usize(3) {
             let a = rng.below(nvals as u64) as u8;
             let b = (a + 1 + rng.below(nvals as u64 - 1) as u8) % nvals;
-            m.push(BRule { cond: BCond::Atom(BAtom { field: 0, op: 0, lit: a }), sets: vec![(0, b)], fails: false, copies: vec![], no_loop: false });
+            m.push(BRule { cond: BCond::Atom(BAtom { field: 0, op: 0, lit: a }), sets: vec![(0, b)], fails: false, copies: vec![], no_loop: false, retracts: vec![] });
         }
         let v = rng.below(3) as u8;
         for _ in 0..1 + rng.usize(2) {
-            m.push(BRule { cond: BCond::Atom(BAtom { field: 0, op: 0, lit: rng.below(nvals as u64) as u8 }), sets: vec![(1, v)], fails: false, copies: vec![], no_loop: false });
+            m.push(BRule { cond: BCond::Atom(BAtom { field: 0, op: 0, lit: rng.below(nvals as u64) as u8 }), sets: vec![(1, v)], fails: false, copies: vec![], no_loop: false, retracts: vec![] });
         }
         m.extend(rules.iter().take(rng.usize(3)).cloned());
         rng.shuffle(&mut m);
@@ -1502,22 +1519,25 @@ impl World for BwdWorld {
                     let mut alts: Vec<BRule> = Vec::new();
                     match &r.cond {
                         BCond::And(a, b) | BCond::Or(a, b) => {
-                            alts.push(BRule { cond: (**a).clone(), sets: r.sets.clone(), fails: r.fails, copies: r.copies.clone(), no_loop: r.no_loop });
-                            alts.push(BRule { cond: (**b).clone(), sets: r.sets.clone(), fails: r.fails, copies: r.copies.clone(), no_loop: r.no_loop });
+                            alts.push(BRule { cond: (**a).clone(), sets: r.sets.clone(), fails: r.fails, copies: r.copies.clone(), no_loop: r.no_loop, retracts: r.retracts.clone() });
+                            alts.push(BRule { cond: (**b).clone(), sets: r.sets.clone(), fails: r.fails, copies: r.copies.clone(), no_loop: r.no_loop, retracts: r.retracts.clone() });
                         }
                         _ => {}
                     }
                     if r.fails {
-                        alts.push(BRule { cond: r.cond.clone(), sets: r.sets.clone(), fails: false, copies: r.copies.clone(), no_loop: r.no_loop });
+                        alts.push(BRule { cond: r.cond.clone(), sets: r.sets.clone(), fails: false, copies: r.copies.clone(), no_loop: r.no_loop, retracts: r.retracts.clone() });
+                        if !r.retracts.is_empty() {
+                            alts.push(BRule { cond: r.cond.clone(), sets: r.sets.clone(), fails: r.fails, copies: r.copies.clone(), no_loop: r.no_loop, retracts: vec![] });
+                        }
                         if !r.copies.is_empty() {
-                            alts.push(BRule { cond: r.cond.clone(), sets: r.sets.clone(), fails: r.fails, copies: vec![], no_loop: r.no_loop });
+                            alts.push(BRule { cond: r.cond.clone(), sets: r.sets.clone(), fails: r.fails, copies: vec![], no_loop: r.no_loop, retracts: r.retracts.clone() });
                         }
                     }
                     if r.sets.len() > 1 {
                         for k in 0..r.sets.len() {
                             let mut s = r.sets.clone();
                             s.remove(k);
-                            alts.push(BRule { cond: r.cond.clone(), sets: s, fails: r.fails, copies: r.copies.clone(), no_loop: r.no_loop });
+                            alts.push(BRule { cond: r.cond.clone(), sets: s, fails: r.fails, copies: r.copies.clone(), no_loop: r.no_loop, retracts: r.retracts.clone() });
                         }
                     }
                     for b in alts {
